@@ -53,7 +53,12 @@ pub fn run_history(w: Which, cfg: DpCfg, hist: &History, obs: &mut Obs) -> CaseR
     let max_rounds = (bound as usize + 8) * (cfg.pers.len() + 1) * (cfg.max_retry as usize + 4);
     let mut rounds = 0;
     while rig.cycles < start + bound && rounds < max_rounds {
-        rig.round(&Act::Ok, 200, false, &mut oracles)?;
+        let hp = match hist.clean_hp {
+            0 => false,
+            1 => true,
+            k => rounds % usize::from(k) == 0,
+        };
+        rig.round(&Act::Ok, 200, hp, &mut oracles)?;
         rounds += 1;
     }
     rig.finish(&mut oracles, obs)?;
@@ -97,6 +102,9 @@ fn random_case(w: Which, t: &mut Tape, obs: &mut Obs, max_rounds: usize) -> Case
     obs.sample(|| describe(&cfg, &hist));
     if std::env::var("PBVERIF_DUMP").is_ok() {
         eprintln!("{}", serde_json::to_string_pretty(&describe(&cfg, &hist)).unwrap());
+    }
+    if hist.clean_hp > 0 {
+        obs.label("fault-free-phase-with-high-priority-only-cycles");
     }
     run_history(w, cfg, &hist, obs)
 }
@@ -210,7 +218,7 @@ fn exhaustive_case(w: Which, index: u64, depth: u32, prefix_ok: usize, obs: &mut
         _ => vec![mk(10, 1, 1), mk(13, 0, 0), mk(16, 2, 2)],
     };
     let cfg = DpCfg { master_addr: 2, max_retry: 1 + (variant as u8), min_tsdr: 11, watchdog_ms: None, pers, fixed_slots: None };
-    let hist = History { acts, clean_rounds: 0 };
+    let hist = History { acts, clean_rounds: 0, clean_hp: (code % 3) as u8 };
     if w != Which::C07 {
         obs.nontrivial(index);
     }
